@@ -164,6 +164,10 @@ def generate(rng, tier, index):
             if fk == "rows":
                 f["rows"] = rng.choice(req)
             steps.append({"op": "corrupt", "a": ai, "j": ji, "fault": f})
+        elif r > 0.93 and mats[ji].get("form", "plain") != "requires_grad":
+            # the same tensor object is refilled in place with other values (a reused Jacobian buffer)
+            n_j = len(mats[ji]["J"][0])
+            steps.append({"op": "overwrite", "j": ji, "J": _matrix(rng, mj, n_j, 10 ** rng.uniform(-3, 3))})
         elif faults_on and r < 0.45:
             sites = [s for s, ks in F5_TARGETS.items() if a["kind"] in ks]
             if not sites:
@@ -219,6 +223,15 @@ def execute(scn):
     faulted = set()  # instances that went through a fault step
     clean_after_fault = False
     for si, st in enumerate(scn["steps"]):
+        if st["op"] == "overwrite":
+            ji = st["j"]
+            if ji < len(mats) and list(mats[ji].shape) == [len(st["J"]), len(st["J"][0])]:
+                with torch.no_grad():
+                    mats[ji].copy_(torch.tensor(st["J"], dtype=mats[ji].dtype))
+                scn["mats"][ji] = {**scn["mats"][ji], "J": st["J"]}
+                stats["reach.input_buffer_refilled_in_place"] = stats.get("reach.input_buffer_refilled_in_place", 0) + 1
+            events.append([si, "overwrite", ji])
+            continue
         ai, ji = st["a"], st["j"]
         if ai >= len(pool) or ji >= len(mats):
             continue
@@ -254,8 +267,11 @@ def execute(scn):
             # fresh instance, same seed: history must be unobservable
             fresh = make_agg(a_spec, dtype0)
             torch.manual_seed(int(st["seed"]))
+            # ... on a fresh tensor OBJECT with the same values and layout: the result is a function of the
+            # matrix, not of the identity of the tensor that carries it
+            J_fresh = matrix_form(J.detach().clone().contiguous(), scn["mats"][ji].get("form", "plain"))
             try:
-                ref = fresh(J)
+                ref = fresh(J_fresh)
             except Exception as e:  # noqa: BLE001
                 ref = None
                 viols.append({"clause": "fresh_instance_raised_but_history_instance_did_not", "step": si, "details": {"agg": kind, "exc": f"{type(e).__name__}: {str(e)[:160]}"}, "key": {"agg": kind}})
@@ -343,14 +359,15 @@ def shrink(scn):
         del s["steps"][i]
         if s["steps"]:
             yield s
-    used_a = sorted({st["a"] for st in steps})
+    used_a = sorted({st["a"] for st in steps if "a" in st})
     used_j = sorted({st["j"] for st in steps})
     if len(used_a) < len(scn["pool"]) or len(used_j) < len(scn["mats"]):
         s = copy.deepcopy(scn)
         s["pool"] = [scn["pool"][i] for i in used_a]
         s["mats"] = [scn["mats"][j] for j in used_j]
         for st in s["steps"]:
-            st["a"] = used_a.index(st["a"])
+            if "a" in st:
+                st["a"] = used_a.index(st["a"])
             st["j"] = used_j.index(st["j"])
         yield s
     for j, Md in enumerate(scn["mats"]):
